@@ -153,6 +153,12 @@ fn value_passthrough(rep: &Report) -> u64 {
             ("case-then", Box::new(|d| build_any_d(Query::select().expr(CaseStatement::new().case(Expr::col(a("a")).gt(1), Expr::val(v.clone())).finally(Expr::val(v.clone()))).from(a("t1")), d)), vec![one.clone(), v.clone(), v.clone()]),
             ("from-values", Box::new(|d| build_any_d(Query::select().column(Asterisk).from_values([(v.clone(), 1i32)], a("x")), d)), vec![v.clone(), one.clone()]),
             ("between", Box::new(|d| build_any_d(Query::delete().from_table(a("t1")).and_where(Expr::col(a("s")).between(v.clone(), v.clone())), d)), vec![v.clone(), v.clone()]),
+            ("in-tuples", Box::new(|d| build_any_d(Query::select().column(a("a")).from(a("t1")).and_where(Expr::tuple([Expr::col(a("s")).into(), Expr::col(a("a")).into()]).in_tuples([(v.clone(), 1i32), (v.clone(), 2i32)])), d)), vec![v.clone(), one.clone(), v.clone(), two.clone()]),
+            ("function-table-argument", Box::new(|d| build_any_d(Query::select().column(Asterisk).from_function(Func::cust(a("gen")).arg(v.clone()).arg(1), a("g")), d)), vec![v.clone(), one.clone()]),
+            ("group-by-having-order-by", Box::new(|d| build_any_d(Query::select().expr(Func::count(Expr::col(Asterisk))).from(a("t1")).add_group_by([Func::coalesce([Expr::col(a("s")).into(), Expr::val(v.clone()).into()]).into()]).and_having(Func::max(Expr::col(a("s"))).ne(v.clone())).order_by_expr(Func::coalesce([Expr::col(a("s")).into(), Expr::val(v.clone()).into()]).into(), Order::Desc).limit(2), d)), vec![v.clone(), v.clone(), v.clone(), Value::BigUnsigned(Some(2))]),
+            ("window-partition", Box::new(|d| build_any_d(Query::select().expr_window_as(Func::count(Expr::col(Asterisk)), WindowStatement::partition_by_custom("1").add_partition_by(Func::coalesce([Expr::col(a("s")).into(), Expr::val(v.clone()).into()]).into()).order_by_expr(Func::coalesce([Expr::col(a("s")).into(), Expr::val(v.clone()).into()]).into(), Order::Asc).frame_start(FrameType::Rows, Frame::Preceding(2)).to_owned(), a("w")).from(a("t1")), d)), vec![v.clone(), v.clone(), Value::Unsigned(Some(2))]),
+            ("join-on-and-subquery", Box::new(|d| build_any_d(Query::select().column(a("a")).from(a("t1")).join(JoinType::LeftJoin, a("t2"), Expr::col((a("t2"), a("s"))).eq(v.clone())).and_where(Expr::col(a("a")).in_subquery(Query::select().column(a("c")).from(a("t2")).and_where(Expr::col(a("s")).ne(v.clone())).to_owned())).and_where(Expr::exists(Query::select().expr(Expr::val(v.clone())).to_owned())), d)), vec![v.clone(), v.clone(), v.clone()]),
+            ("on-conflict-and-returning", Box::new(|d| build_any_d(Query::insert().into_table(a("t1")).columns([a("id"), a("s")]).values_panic([1.into(), Expr::val(v.clone()).into()]).on_conflict(OnConflict::column(a("id")).value(a("s"), Expr::val(v.clone())).to_owned()), d)), vec![one.clone(), v.clone(), v.clone()]),
         ];
         for (pos, f, want) in &cases {
             for d in DIALECTS {
